@@ -26,6 +26,9 @@ CLAIMED['C09'] = ("range rule: every int64 key against 1..6 tables with a symbol
 CLAIMED['C29'] = ("after a reload of one namespace, a deletion or a clone of the user manager, the (user,password) pairs that authenticate and the namespace each binds to are exactly the configured ones, for 2 namespaces x 1..2 users with symbolic names/passwords over an alphabet containing ':' and '*', probed with every configured pair and one arbitrary pair; credential keys are injective for arbitrary strings <= 2 bytes",
     "one operation from a freshly built manager (not arbitrary histories); names 1 byte, passwords <= 2 bytes; password *verification* (scrambles) is C30's subject")
 
+CLAIMED['C34'] = ("inductive step of MySQLSequence.NextSeq from an arbitrary cached block with an arbitrary block-fetch reply (well-formed with symbolic digits, one field, non-numeric, zero/negative increment, missing row, empty result, execute/pool error): a value is issued only from a granted block and lies inside it, a failed fetch leaves no phantom block; plus every interleaving of k<=6 requests of 2 proxies over one table model with a fault on any fetch: no value twice, increasing per proxy",
+    "the sequence table is a model (current += increment; reply 'current,increment'); replies are 2-digit current / 1-2 digit increment in the step harness; the mutex is exercised single-threaded (the proxy serialises NextSeq under one lock); the value limit (maxLimit) is off")
+
 NA_REASON = "check not built yet (work in progress; see DESIGN.md section 3 for the planned harness)"
 NA = {}
 
